@@ -79,6 +79,15 @@ impl ReaderState {
     }
 }
 
+/// representation invariant of the event types: the name is a prefix of the content
+spec fn ev_wf<'i>(ev: Event<'i>) -> bool {
+    match ev {
+        Event::Start(e) | Event::Empty(e) => e.name_len <= e.buf@.len(),
+        Event::Decl(e) => e.content.name_len <= e.content.buf@.len(),
+        Event::PI(e) => e.content.name_len <= e.content.buf@.len(),
+        _ => true,
+    }
+}
 /// `s` without its trailing XML whitespace
 pub open spec fn trimmed_end(s: Seq<u8>) -> Seq<u8> decreases s.len() {
     if s.len() == 0 { s } else if is_ws(s.last()) { trimmed_end(s.drop_last()) } else { s }
